@@ -286,6 +286,13 @@ func (s *Session) H(st *State, key string, sort Sort) Term {
 	return Term{name, sort}
 }
 
+// sliceWFAlloc: sliceWF for a cell of object i; the type invariant holds of every cell, the bound by the
+// allocation mark only of cells of allocated objects (i <= brk): the fields of an object a callee allocates
+// later ("fresh(result.f)") live in the same array and point above today's mark.
+func sliceWFAlloc(i, e, brk string) string {
+	return fmt.Sprintf("(and (<= 0 (sarr %s)) (=> (<= %s %s) (<= (sarr %s) %s)) (<= 0 (soff %s)) (<= 0 (slen %s)) (<= (slen %s) (scap %s)) (=> (= (sarr %s) 0) (= (scap %s) 0)))", e, i, brk, e, brk, e, e, e, e, e, e)
+}
+
 func sliceWF(e, brk string) string {
 	return fmt.Sprintf("(and (<= 0 (sarr %s)) (<= (sarr %s) %s) (<= 0 (soff %s)) (<= 0 (slen %s)) (<= (slen %s) (scap %s)) (=> (= (sarr %s) 0) (= (scap %s) 0)))", e, e, brk, e, e, e, e, e, e)
 }
@@ -301,23 +308,23 @@ func closureOf(key string, a Term, brk Term) Term {
 		switch {
 		case a.Sort == ArrSort(SInt, SInt):
 			e := fmt.Sprintf("(select %s i!c)", a.S)
-			return Term{fmt.Sprintf("(forall ((i!c Int)) (! (<= %s %s) :pattern (%s)))", e, brk.S, e), SBool}
+			return Term{fmt.Sprintf("(forall ((i!c Int)) (! (=> (<= i!c %s) (<= %s %s)) :pattern (%s)))", brk.S, e, brk.S, e), SBool}
 		case strings.HasPrefix(string(a.Sort), "(Array Int (Array ") && strings.HasSuffix(string(a.Sort), " Int))"):
 			inner := idxSortOf(elemSortOf(a.Sort))
 			e := fmt.Sprintf("(select (select %s i!c) k!c)", a.S)
-			return Term{fmt.Sprintf("(forall ((i!c Int) (k!c %s)) (! (<= %s %s) :pattern (%s)))", inner, e, brk.S, e), SBool}
+			return Term{fmt.Sprintf("(forall ((i!c Int) (k!c %s)) (! (=> (<= i!c %s) (<= %s %s)) :pattern (%s)))", inner, brk.S, e, brk.S, e), SBool}
 		}
 	}
 	switch a.Sort {
 	case ArrSort(SInt, SSlice):
 		e := fmt.Sprintf("(select %s i!c)", a.S)
-		return Term{fmt.Sprintf("(forall ((i!c Int)) (! %s :pattern (%s)))", sliceWF(e, brk.S), e), SBool}
+		return Term{fmt.Sprintf("(forall ((i!c Int)) (! %s :pattern (%s)))", sliceWFAlloc("i!c", e, brk.S), e), SBool}
 	}
 	so := string(a.Sort)
 	if strings.HasPrefix(so, "(Array Int (Array ") && strings.HasSuffix(so, " Slice))") {
 		inner := idxSortOf(elemSortOf(a.Sort))
 		e := fmt.Sprintf("(select (select %s i!c) k!c)", a.S)
-		return Term{fmt.Sprintf("(forall ((i!c Int) (k!c %s)) (! %s :pattern (%s)))", inner, sliceWF(e, brk.S), e), SBool}
+		return Term{fmt.Sprintf("(forall ((i!c Int) (k!c %s)) (! %s :pattern (%s)))", inner, sliceWFAlloc("i!c", e, brk.S), e), SBool}
 	}
 	return TTrue
 }
